@@ -141,6 +141,79 @@ class Gen:
         return "(dot %s %s)" % (fld, base)
 
 
+class TypedGen(Gen):
+    """well-typed integral expressions (accepted by the type checker): assignments and ++/-- only on lvalues, calls with the
+    right arity, no rate / strings / doubles in integer-only operators"""
+    INT_ONLY = {"MOD", "BIT_AND", "BIT_OR", "BIT_XOR", "BIT_LSHIFT", "BIT_RSHIFT"}
+
+    def __init__(self, G, rng):
+        super().__init__(G, rng)
+        self.assign = [t for t, _p, k in G["bin"] if k == "ASSIGN" or k.startswith("ASS_")]
+        self.arith = [t for t, _p, k in G["bin"] if not (k == "ASSIGN" or k.startswith("ASS_"))]
+        self.prekind = {t: k for t, _p, k in G["pre"]}
+
+    def lvalue(self, d):
+        r = self.rng
+        c = r.random()
+        if d <= 0 or c < 0.5:
+            return "(id %s)" % r.choice("a b c d e i j k".split())
+        if c < 0.75:
+            return "(index (id arr) %s)" % self.tree(d - 1)
+        if c < 0.85:
+            return "(index (index (id mat) %s) %s)" % (self.tree(d - 1), self.tree(d - 1))
+        if c < 0.95:
+            return "(dot %s (id s))" % r.choice(["f", "g"])
+        return "(dot f (index (id ss) %s))" % self.tree(d - 1)
+
+    def atom(self):
+        r = self.rng
+        c = r.random()
+        if c < 0.55:
+            return "(id %s)" % r.choice("a b c d e i j k p q".split())
+        if c < 0.85:
+            return "(nat %d)" % r.choice([0, 1, 2, 7, 10, 255, 2147483647, r.randint(0, 100000)])
+        if c < 0.9:
+            return "(intmin)"
+        return r.choice(["true", "false"])
+
+    def tree(self, d):
+        r = self.rng
+        if d <= 0 or r.random() < 0.12:
+            self.hit("atom")
+            return self.atom()
+        c = r.random()
+        if c < 0.38:
+            self.hit("bin")
+            return "(bin %s %s %s)" % (r.choice(self.arith), self.tree(d - 1), self.tree(d - 1))
+        if c < 0.48:
+            self.hit("assign")
+            return "(bin %s %s %s)" % (r.choice(self.assign), self.lvalue(d - 1), self.tree(d - 1))
+        if c < 0.58:
+            self.hit("pre")
+            t = r.choice(self.pres)
+            if self.prekind[t] in ("PRE_INCREMENT", "PRE_DECREMENT"):
+                return "(pre %s %s)" % (t, self.lvalue(d - 1))
+            return "(pre %s %s)" % (t, self.tree(d - 1))
+        if c < 0.64:
+            self.hit("post")
+            return "(post %s %s)" % (r.choice([t for t in self.posts if t.startswith("T_")]), self.lvalue(d - 1))
+        if c < 0.73:
+            self.hit("tern")
+            return "(tern %s %s %s)" % (self.tree(d - 1), self.tree(d - 1), self.tree(d - 1))
+        if c < 0.80:
+            self.hit("index")
+            return self.lvalue(d) if r.random() < 0.7 else "(index (id arr) %s)" % self.tree(d - 1)
+        if c < 0.88:
+            self.hit("call")
+            n = r.choice([0, 1, 2, 3])
+            return "(call (id f%d)%s)" % (n, "".join(" " + self.tree(d - 1) for _ in range(n)))
+        if c < 0.95:
+            self.hit("quant")
+            return "(quant %s %s int[0,3] %s)" % (r.choice(self.quants), r.choice("ijk"), self.tree(d - 1))
+        self.hit("dot")
+        return "(dot %s (id s))" % r.choice(["f", "g"])
+
+
 def operator_strings(G):
     """every pair / triple of operators around atoms: the complete finite part of the table"""
     lit = {}
